@@ -17,7 +17,22 @@ def _form(src, rel, rule, sub, kw):
     return bool(twice)
 
 
+def _factor(src, rel, leaves):
+    m = re.search(r"rule\s+factor\(\)\s*->\s*Expr\s*=(.*?)(?=\n\s*rule\s)", src, re.S)
+    if not m:
+        raise Missing(f"{rel}: rule factor")
+    body = re.sub(r"\s+", "", re.sub(r"//[^\n]*", "", m.group(1)))
+    want = r'ci\("NOT"\)_\w+:factor\(\)\{Expr::Not\(Box::new\(\w+\)\)\}/"\("_e:(expr|expression)\(\)_"\)"\{e\}/' + "/".join(l + r"\(\)" for l in leaves) + "$"
+    if not re.match(want, body):
+        raise Missing(f"{rel}: rule factor is not `NOT factor / ( expr ) / {' / '.join(leaves)}`")
+    e = re.search(r"rule\s+(?:expr|expression)\(\)\s*->\s*Expr\s*=\s*or_expr\(\)", src)
+    if not e:
+        raise Missing(f"{rel}: the expression rule is not or_expr()")
+
+
 def gen(out):
+    _factor(read("src/command/parser/commands/query.rs"), "src/command/parser/commands/query.rs", ["comparison", "in_expr", "atom"])
+    _factor(read("src/command/parser/commands/plotql.rs"), "src/command/parser/commands/plotql.rs", ["comparison", "in_expr", "exists_expr"])
     forms = {}
     for rel in ("src/command/parser/commands/query.rs", "src/command/parser/commands/plotql.rs"):
         src = read(rel)
